@@ -7,6 +7,7 @@ Cells are packed ~400 to a project, each in its own directory chain.
 
 import itertools
 import json
+import os
 import shutil
 
 from ..monitors import run_cli
@@ -96,8 +97,11 @@ def level_dirs(cell_dir):
     return [cell_dir, f"{cell_dir}/d1", f"{cell_dir}/d1/d2"]
 
 
-def expected(cell_dir, cell):
-    """-> (must_have, must_not_have, exact: bool)"""
+ROOT_ITEMS = {("c", "1999 Root Holder", "REUSE.toml", "reuse-toml"), ("l", "LicenseRef-root", "REUSE.toml", "reuse-toml")}
+
+
+def expected(cell_dir, cell, root_level=False):
+    """-> (must_have, must_not_have, exact: bool); root_level: a closest table in the project root's REUSE.toml is outermost"""
     own, dot, levels = OWN[cell[0]], DOT[cell[1]], cell[2]
     mine = own_items(cell_dir, own, dot)
     dirs = level_dirs(cell_dir)
@@ -117,7 +121,10 @@ def expected(cell_dir, cell):
     if ovr is not None:
         must = set(eff[ovr][2])
         forbidden_src = {f"{cell_dir}/d1/d2/f.txt", f"{cell_dir}/d1/d2/f.txt.license"} | {f"{dirs[j]}/REUSE.toml" for j in range(ovr + 1, 3)}
-        outer_present = any(eff[j] for j in range(ovr))
+        outer_present = any(eff[j] for j in range(ovr)) or root_level
+    if root_level:
+        eff = [("closest", "both", set(ROOT_ITEMS))] + eff
+    if ovr is not None:
         return must, forbidden_src, not outer_present
     want = set(mine)
     has_c = any(i[0] == "c" for i in mine)
@@ -219,23 +226,41 @@ def run_case(case, ctx):
     root = ctx.scratch / f"c04-{case['base']}"
     root.mkdir()
     try:
+        # directory names on both sides of "." in string order, and the root spelled "." in half of the projects: the chain of
+        # REUSE.toml files must be ordered by depth, not by how the paths happen to compare as text
+        prefixes = ["c", "(c", "+c", "-c", "#c", "~c", "C"]
+        pre = prefixes[(case["base"] // PER_PROJECT) % len(prefixes)]
+        names = [f"{pre}{j:04d}" for j in range(len(case["cells"]))]
         for j, cell in enumerate(case["cells"]):
-            write_cell(root, f"c{j:04d}", cell)
-        r = run_cli(["--no-multiprocessing", "--root", str(root), "lint", "--json"], cwd=str(root))
+            write_cell(root, names[j], cell)
+        dot_root = (case["base"] // PER_PROJECT) % 2 == 1
+        root_level = (case["base"] // PER_PROJECT) % 4 in (1, 2)
+        if root_level:
+            (root / "REUSE.toml").write_text('version = 1\n\n[[annotations]]\npath = "**/f.txt"\nprecedence = "closest"\n'
+                                             'SPDX-FileCopyrightText = "1999 Root Holder"\nSPDX-License-Identifier = "LicenseRef-root"\n')
+        from ..monitors import FS
+
+        FS.install()
+        FS.begin(log_reads=True)
+        try:
+            r = run_cli(["--no-multiprocessing", "--root", "." if dot_root else str(root), "lint", "--json"], cwd=str(root))
+        finally:
+            FS.end()
+            reads = set(FS.reads)
         if r.escaped:
             res.violation("escaped-exception", f"{r.exc_type} left main()", tb=r.exc_tb)
             return res.out()
         data = json.loads(r.stdout)
         by = {f["path"]: f for f in data["files"]}
         for j, cell in enumerate(case["cells"]):
-            cd = f"c{j:04d}"
+            cd = names[j]
             res.n += 1
             fe = by.get(f"{cd}/d1/d2/f.txt")
             if fe is None:
                 res.violation("file-not-reported", f"cell {cell}: file missing from lint --json")
                 continue
             obs = observed_items(fe)
-            must, forb, exact = expected(cd, cell)
+            must, forb, exact = expected(cd, cell, root_level)
             strip = lambda items: sorted((k, v, s.split("/", 1)[1] if "/" in s else s, t) for k, v, s, t in items)  # noqa
             if exact:
                 if obs != must:
@@ -245,6 +270,15 @@ def run_case(case, ctx):
             else:
                 miss = must - obs
                 shadow = {i for i in obs if i[2] in forb}
+            if forb:
+                # "the file is not read": neither the file nor its .license sibling may be opened under an override
+                opened = [p for p in (str(root / cd / "d1" / "d2" / "f.txt"), str(root / cd / "d1" / "d2" / "f.txt.license")) if p in reads]
+                if opened:
+                    res.violation("overridden-file-opened", f"cell own={OWN[cell[0]]} levels={describe(cell[2])}: the file is governed by an override but "
+                                  f"{[os.path.basename(p) for p in opened]} was opened", cell=cell)
+                res.cell("override-not-read-checked")
+            if not exact and False:
+                pass
                 if miss:
                     res.violation("override-information-missing", f"cell {describe(cell[2])}: override items missing {strip(miss)}", cell=cell)
                 if shadow:
